@@ -5,6 +5,8 @@ CONSTANTS
   IterateAllFields = FALSE
   SplitEverySpace = TRUE
   CacheWidths = FALSE
+  SharedEqualRecords = FALSE
+  ClassLevelOption = FALSE
   Emit = FALSE
   EmitOff = 0
 SPECIFICATION Spec
@@ -18,4 +20,6 @@ INVARIANT WidthRule
 INVARIANT RightAligned
 INVARIANT SingleBlanks
 PROPERTY LoadIsIdentity
+PROPERTY EditIsLocal
+PROPERTY OtherIsOther
 CHECK_DEADLOCK FALSE
